@@ -17,3 +17,34 @@ Print Assumptions C19_parallelize_loop.
 (** rename, make_instr, set_memory, set_precision, set_window change only fields that the deep
     embedding (Core.Syntax) does not contain; harness/props/C19.py checks per instance that the
     exported terms of source and result are identical, which makes their runs identical. *)
+
+(** partial_eval: fixing an index/size argument to a literal [z] (resp. a bool argument to [b]) and
+    removing it from the signature gives a procedure that behaves exactly like the original called with
+    that value: same outcome kind, and on success the same argument buffers and configuration.
+    [pe_proc] is the Gallina model of DoPartialEval; harness/props/C19.py compares it, term by term, with
+    what the real Procedure.partial_eval returns.  Hypotheses: the value is admissible for the argument's
+    kind (a size must be positive), earlier arguments do not mention the fixed one, later arguments and
+    binders inside the body are different symbols (Syms are unique). *)
+From Core Require Import PartialEval PartialEvalSound.
+
+Theorem C19_partial_eval_int : forall x z fpre kx fpost preds body ipre ipost cfg,
+  kind_ok kx (VInt z) ->
+  length ipre = length fpre ->
+  (forall y k, In (y, k) fpre -> y <> x /\ pe_kind x (Int z) k = k) ->
+  (forall y k, In (y, k) fpost -> y <> x) ->
+  forallb (nobind x) body = true ->
+  osim (run (Proc (fpre ++ (x, kx) :: fpost) preds body) (mkInput (ipre ++ InVal (VInt z) :: ipost) cfg))
+       (run (pe_proc x (Int z) (Proc (fpre ++ (x, kx) :: fpost) preds body)) (mkInput (ipre ++ ipost) cfg)).
+Proof. intros x z. exact (partial_eval_correct x (Int z) (VInt z) (fun _ => eq_refl) (fun _ => eq_refl)). Qed.
+Print Assumptions C19_partial_eval_int.
+
+Theorem C19_partial_eval_bool : forall x b fpre kx fpost preds body ipre ipost cfg,
+  kind_ok kx (VBool b) ->
+  length ipre = length fpre ->
+  (forall y k, In (y, k) fpre -> y <> x /\ pe_kind x (BoolC b) k = k) ->
+  (forall y k, In (y, k) fpost -> y <> x) ->
+  forallb (nobind x) body = true ->
+  osim (run (Proc (fpre ++ (x, kx) :: fpost) preds body) (mkInput (ipre ++ InVal (VBool b) :: ipost) cfg))
+       (run (pe_proc x (BoolC b) (Proc (fpre ++ (x, kx) :: fpost) preds body)) (mkInput (ipre ++ ipost) cfg)).
+Proof. intros x b. exact (partial_eval_correct x (BoolC b) (VBool b) (fun _ => eq_refl) (fun _ => eq_refl)). Qed.
+Print Assumptions C19_partial_eval_bool.
